@@ -500,7 +500,11 @@ func (s *Server) liveAOF(pos int64, conn net.Conn, rd *PipelineReader, msg *Mess
 		f.Close()
 	}()
 
-	if _, err := conn.Write([]byte("+OK\r\n")); err != nil {
+	ack := []byte("+OK\r\n")
+	if msg.OutputType == JSON {
+		ack = redcon.AppendBulkString(nil, `{"ok":true}`)
+	}
+	if _, err := conn.Write(ack); err != nil {
 		return err
 	}
 	if _, err := f.Seek(pos, 0); err != nil {
